@@ -8,10 +8,16 @@
   that is written `-5`; the RECEIVER of a member access / method call is written by `marshalReceiverNode`
   (`goWrapRecv`), which parenthesises a negative long: `(-5).foo` (repaired defect `negative-literal-receiver`).
 
-  Not modelled (the driver answers `skip`): `NodeValue`s holding sets, records or extension values
-  (member order of a printed set is hash-slot order, record keys go through `strconv.Quote`; both are
-  exercised by the direct oracle on the Go side), method-style extension calls without a receiver
-  (Go panics), entity types / annotation keys that are not grammar paths / identifiers.
+  `NodeValue`s holding sets, records and extension values are written by `types.Set/Record/Decimal/IPAddr/
+  Datetime/Duration.MarshalCedar` (`marshalValW`): `[m₁, m₂]`, `{"k":v, "l":w}` (keys through the Cedar string
+  escapes, ascending), `decimal("1.5")`, `ip("::1/64")`, `datetime("…")`, `duration("…")` with the RAW text of the
+  value's `String()` between the quotes.  Go writes the members of a set in hash-slot order; the model writes them
+  in the order of the member list (`marshalLit`), and `marshalValW ord` lets the driver apply a canonical order to
+  the member renderings so that bytes can be compared with Go's up to member order (op `marshal-value`).
+
+  Not modelled (the driver answers `skip`): method-style extension calls without a receiver
+  (function style `f()`, outside the grammar), entity types / annotation keys that are not grammar paths /
+  identifiers; at policy level, set values with two or more members (their order is Go's hash-slot order).
 -/
 import CedarGo.Model.Text.Printer
 namespace CedarGo.Text
@@ -57,18 +63,81 @@ def goWrapRecv (lvl : Nat) (child : Expr) (ps : List Piece) : List Piece :=
 
 def toksP (ts : List Token) : List Piece := ts.map .t
 
-/-- `Value.MarshalCedar()` for the modelled value kinds -/
-def marshalLit : Value → List Piece
+/-- a string literal token whose body is written RAW (no escaping): `"` + s + `"` -/
+def rawStrT (s : String) : Token := ⟨.string, noPos, String.ofList ('"' :: (s.toList ++ ['"']))⟩
+
+/-- `types.Decimal/IPAddr/Datetime/Duration.MarshalCedar`: `name("` + `String()` + `")` -/
+def extCallP (fn : String) (arg : String) : List Piece := [.t (idT fn), .t (opT "("), .t (rawStrT arg), .t (opT ")")]
+
+/-- renderings joined by `", "` -/
+def joinCommaP : List (List Piece) → List Piece
+  | [] => []
+  | [x] => x
+  | x :: rest => x ++ .t (opT ",") :: .s " " :: joinCommaP rest
+
+mutual
+/-- `Value.MarshalCedar()`; `ord` = the order in which a set writes the renderings of its members
+    (Go: ascending hash slot; `id` = the order of the member list) -/
+def marshalValW (ord : List (List Piece) → List (List Piece)) : Value → List Piece
   | .bool b => [.t (kwT (if b then "true" else "false"))]
   | .long n => if n < 0 then [.t (opT "-"), .t (intT n.natAbs)] else [.t (intT n.toNat)]
   | .str s => [.t (strT s)]
   | .entity ty id => toksP (pathToks ty ++ [opT "::", strT id])
-  | _ => []
+  | .set xs => .t (opT "[") :: (joinCommaP (ord (marshalValsW ord xs)) ++ [.t (opT "]")])
+  | .record kvs => .t (opT "{") :: (joinCommaP (marshalKVsW ord kvs) ++ [.t (opT "}")])
+  | .decimal d => extCallP "decimal" (Scalars.printDecimal d)
+  | .datetime t => extCallP "datetime" (Scalars.printDatetime t)
+  | .duration d => extCallP "duration" (Scalars.printDuration d)
+  | .ip a => extCallP "ip" (Scalars.printIP a)
+def marshalValsW (ord : List (List Piece) → List (List Piece)) : List Value → List (List Piece)
+  | [] => []
+  | v :: vs => marshalValW ord v :: marshalValsW ord vs
+/-- `Record.MarshalCedar`: `key:value` in the order of the (key-sorted) entry list -/
+def marshalKVsW (ord : List (List Piece) → List (List Piece)) : List (String × Value) → List (List Piece)
+  | [] => []
+  | (k, v) :: rest => (.t (strT k) :: .t (opT ":") :: marshalValW ord v) :: marshalKVsW ord rest
+end
 
+/-- `Value.MarshalCedar()` with set members in list order -/
+def marshalLit (v : Value) : List Piece := marshalValW id v
+
+/-- strictly ascending keys: the entry list of a Go `Record` as `MarshalCedar` visits it -/
+def keysAsc : List (String × Value) → Bool
+  | [] => true
+  | [_] => true
+  | (k, _) :: (k', v') :: rest => decide (k < k') && keysAsc ((k', v') :: rest)
+
+mutual
+/-- values whose `MarshalCedar` the model covers: entity types that are grammar paths, records listed by strictly
+    ascending key -/
 def litModelled : Value → Bool
   | .bool _ | .long _ | .str _ => true
   | .entity ty _ => isPathName ty
-  | _ => false
+  | .set xs => litsModelled xs
+  | .record kvs => keysAsc kvs && kvLitsModelled kvs
+  | .decimal _ | .datetime _ | .duration _ | .ip _ => true
+def litsModelled : List Value → Bool
+  | [] => true
+  | v :: vs => litModelled v && litsModelled vs
+def kvLitsModelled : List (String × Value) → Bool
+  | [] => true
+  | (_, v) :: rest => litModelled v && kvLitsModelled rest
+end
+
+mutual
+/-- every set inside the value has at most one member: then Go's member order is the model's, and the BYTES of a
+    policy containing the value can be compared -/
+def setsSmall : Value → Bool
+  | .set xs => xs.length ≤ 1 && setsSmallL xs
+  | .record kvs => setsSmallKV kvs
+  | _ => true
+def setsSmallL : List Value → Bool
+  | [] => true
+  | v :: vs => setsSmall v && setsSmallL vs
+def setsSmallKV : List (String × Value) → Bool
+  | [] => true
+  | (_, v) :: rest => setsSmall v && setsSmallKV rest
+end
 
 /-- `canMarshalAsIdent` decides between `.name` / `["name"]` and `has name` / `has "name"` -/
 def goAccessP (a : String) : List Piece :=
@@ -144,7 +213,7 @@ end
 mutual
 /-- inside the modelled domain of `marshalExpr` -/
 def exprModelled : Expr → Bool
-  | .lit v => litModelled v
+  | .lit v => litModelled v && setsSmall v
   | .var _ => true
   | .unop _ e => exprModelled e
   | .binop _ l r => exprModelled l && exprModelled r
